@@ -327,29 +327,31 @@ def lleCall (c : Cls α) (r : Rows α) (p : Option (LlePath α)) (top : Option N
 
 /-! ### SLE -/
 
-/-- What an SLE object keeps between calls: `_nonzero`, `_index`, and whether `_chemical` is set (it is
-never cleared once a single-chemical setup has been seen). -/
+/-- What an SLE object keeps between calls: `_nonzero`, `_index`, and whether `_chemical` is set (pure-solute mode;
+set by a single-chemical `_setup`, cleared again by a multi-chemical one since 899e590). -/
 structure SCache where
   nz : Option (List Nat) := none
   idx : List Nat := []
   pure : Bool := false
   deriving DecidableEq, Repr
 
-/-- `SLE._setup` for solute `j` on an object with history.  The cache is returned even when the call raises:
-`_nonzero` / `_index` are stored *before* `self._index.index(solute_index)` can raise. -/
+/-- `SLE._setup` for solute `j` on an object with history (as of 899e590 + 6d30f81).
+* same key set as stored: the index is re-used and `self._index.index(solute_index)` is checked (ValueError when the
+  solute is not a member — also after a PURE call, whose one-element index need not contain a non-LLE solute);
+* otherwise the index is rebuilt and stored together with the key set: one LLE chemical → pure-solute mode (no
+  membership check), several → pure-solute mode is left and the membership check runs AFTER the store, so the
+  cache is updated even when the call raises. -/
 def sleSetupC (c : Cls α) (cache : SCache) (r : Rows α) (j : Nat) : SCache × Except Err Unit :=
   let mol := tab c.n fun i => get r.l i + get r.s i
   if isNZ (get mol j) then
     let nz := nzKeys c mol
     if cache.nz = some nz then
-      -- (repaired behaviour, fixes_proposed/C03-3.md: the re-use path runs the same `self._index.index(solute_index)`
-      --  as the rebuild path; as found it skipped the check and went on with a solute outside the index)
       if j ∈ cache.idx then (cache, .ok ()) else (cache, .error .notIndexed)
     else
       let idx := lleIndex c mol
-      if idx.length = 1 then ({ cache with pure := true }, .ok ())
+      if idx.length = 1 then ({ nz := some nz, idx := idx, pure := true }, .ok ())
       else
-        let cache' := { cache with nz := some nz, idx := idx }
+        let cache' : SCache := { nz := some nz, idx := idx, pure := false }
         if j ∈ idx then (cache', .ok ()) else (cache', .error .notIndexed)
   else (cache, .error .noSolute)
 
